@@ -48,6 +48,7 @@ CHECKS["C18"] = dict(
 
 HOOK_COMMITS.append("4f281a047")
 HOOK_COMMITS.append("3fc5237af")
+HOOK_COMMITS.append("dd4c46005")
 
 CHECKS["C15"] = dict(
     category="model_checking",
